@@ -91,15 +91,16 @@ pub mod sym {
         let v: u8 = kani::any();
         v as u16 + 1
     }
-    /// any scalar that fits one octet (0..=255); 256 is the only field element left out
+    /// any scalar of the field (0..=256)
     pub fn any_scalar() -> Scalar {
-        let v: u8 = kani::any();
-        Scalar(v as u16)
+        let v: u16 = kani::any();
+        kani::assume(v <= 256);
+        Scalar::from_raw(v)
     }
+    /// any non-zero scalar (1..=256), known to be non-zero syntactically
     pub fn any_nonzero_scalar() -> Scalar {
         let v: u8 = kani::any();
-        kani::assume(v != 0);
-        Scalar(v as u16)
+        Scalar::from_nonzero_raw(v as u16 + 1)
     }
     pub fn any_sk() -> BBSplusSecretKey {
         BBSplusSecretKey(any_nonzero_scalar())
@@ -110,14 +111,14 @@ pub mod sym {
         b[off] = 0x80;
         b[off + 47] = kani::any();
     }
-    /// canonical scalar encoding of a symbolic one-octet scalar
+    /// canonical encoding of a symbolic NON-ZERO scalar (1..=256): decoding it never branches on
+    /// the symbolic payload and yields a value known to be non-zero (zero is the one value left out;
+    /// the fully symbolic decoder queries cover it)
     pub fn put_scalar(b: &mut [u8], off: usize) {
+        b[off + 30] = 1;
         b[off + 31] = kani::any();
     }
-    /// canonical scalar encoding of a symbolic NON-ZERO one-octet scalar (signature exponent)
     pub fn put_nonzero_scalar(b: &mut [u8], off: usize) {
-        let v: u8 = kani::any();
-        kani::assume(v != 0);
-        b[off + 31] = v;
+        put_scalar(b, off)
     }
 }
